@@ -3,6 +3,7 @@ branch merging at `if`, loop cutting by invariants, modular calls through contra
 from __future__ import annotations
 import ast, builtins, z3
 from .core import *
+from . import core
 from . import objects as O
 from . import source
 from .source import OutsideSubset
@@ -272,11 +273,35 @@ class Interp:
         k = z3.simplify(z3.Select(self.st.h.kind, V.id(v)))
         if z3.is_int_value(k):
             return k.as_long()
+        k2 = z3.simplify(z3.Select(self.st.kinds, V.id(v)))
+        if z3.is_int_value(k2):
+            return k2.as_long()
         if ("kind", v.get_id()) in self.st.tags:
             return self.st.tags[("kind", v.get_id())]
-        mv = self.st.model_value(z3.Select(self.st.h.kind, V.id(v)))
-        if mv is not None and z3.is_int_value(mv) and self.st.valid(z3.Select(self.st.h.kind, V.id(v)) == mv):
-            return mv.as_long()
+        import os as _os
+        for arr in (self.st.kinds, self.st.h.kind):
+            mv = self.st.model_value(z3.Select(arr, V.id(v)))
+            if _os.environ.get("PYVC_DEBUG2"):
+                import time as _t
+                t0 = _t.time()
+                from .state import check_sat, has_quantifier
+                qf = [p_ for p_ in self.st.pc if not has_quantifier(p_)]
+                if mv is None:
+                    s_ = z3.Solver(); s_.set("timeout", 5000)
+                    for p_ in qf: s_.add(p_)
+                    print("   pc-status(QF):", s_.check(), s_.reason_unknown())
+                    # which hypothesis is responsible? drop one at a time from the end
+                    for k_ in range(len(qf) - 1, max(len(qf) - 40, 0), -1):
+                        s2 = z3.Solver(); s2.set("timeout", 2000)
+                        for p_ in qf[:k_]: s2.add(p_)
+                        r2 = s2.check()
+                        if r2 != z3.unknown:
+                            print("   becomes", r2, "without hypotheses from", k_, ":", str(qf[k_])[:300].replace("\n", " "))
+                            break
+                print("KIND?", str(v)[:80], "mv", mv, "valid", self.st.valid(z3.Select(arr, V.id(v)) == mv) if mv is not None else None, round(_t.time() - t0, 2), "npc", len(self.st.pc))
+            if mv is not None and z3.is_int_value(mv) and mv.as_long() in (K_DICT, K_LIST, K_SET, K_INST) \
+                    and self.st.valid(z3.Select(arr, V.id(v)) == mv):
+                return mv.as_long()
         return None
 
     def inst_class(self, v):
@@ -286,9 +311,11 @@ class Interp:
         if ("cls", v.get_id()) in self.st.tags:
             return O.class_by_id(self.st.tags[("cls", v.get_id())])
         # ask the solver for a candidate and confirm
-        cand = self.st.model_value(z3.Select(self.st.h.cls, V.id(v)))
-        if cand is not None and z3.is_int_value(cand) and self.st.valid(z3.Select(self.st.h.cls, V.id(v)) == cand):
-            return O.class_by_id(cand.as_long())
+        for arr in (self.st.clss, self.st.h.cls):
+            cand = self.st.model_value(z3.Select(arr, V.id(v)))
+            if cand is not None and z3.is_int_value(cand) and O.class_by_id(cand.as_long()) is not None \
+                    and self.st.valid(z3.Select(arr, V.id(v)) == cand):
+                return O.class_by_id(cand.as_long())
         return None
 
     def truthy(self, v):
@@ -394,7 +421,12 @@ class Interp:
         m = getattr(self, "x_" + type(s).__name__, None)
         if m is None:
             raise OutsideSubset(f"statement {type(s).__name__} at line {s.lineno}")
-        return m(s, env)
+        try:
+            return m(s, env)
+        except OutsideSubset as ex:
+            if "@line" not in str(ex):
+                raise OutsideSubset(f"{ex} @line {s.lineno} of {env.func.qual if env.func else '?'}") from None
+            raise
 
     def x_Pass(self, s, env):
         pass
@@ -552,7 +584,8 @@ class Interp:
                 b_env = [dict(e.vars) for e in env.chain()]
                 if self._merge(c, snap, a_state, a_env, b_state, b_env, env):
                     return
-            except (PyRaise, _Return, _Break, _Continue, PathEnd, _NoMerge):
+            except (PyRaise, _Return, _Break, _Continue, PathEnd, _NoMerge, OutsideSubset):
+                # (OutsideSubset too: decisions taken inside the abandoned attempt must not stay in the trail)
                 pass
             st.restore(snap)
             for e, d in envsnap:
@@ -566,8 +599,8 @@ class Interp:
         st = self.st
         pc0 = snap[0]
         n0 = len(pc0)
-        (pca, ha, na, ga, gma, _, sca, cla, ra, eva, tga, tra) = a
-        (pcb, hb, nb, gb, gmb, _, scb, clb, rb, evb, tgb, trb) = b
+        (pca, ha, na, ga, gma, _, sca, cla, ra, eva, tga, tra, kia, csa) = a
+        (pcb, hb, nb, gb, gmb, _, scb, clb, rb, evb, tgb, trb, kib, csb) = b
         if eva != evb:
             return False
         # variables
@@ -627,6 +660,8 @@ class Interp:
         st.symcls = list({t.get_id(): t for t in sca + scb}.values())
         st.classes = cla | clb
         st.targets = tra | trb
+        st.kinds = kia if kia.eq(kib) else z3.If(c, kia, kib)
+        st.clss = csa if csa.eq(csb) else z3.If(c, csa, csb)
         st.reads = ra | rb
         st.events = list(eva)
         st.tags = {k: v for k, v in tga.items() if tgb.get(k) == v}
@@ -1237,6 +1272,8 @@ class Interp:
             if ci.abstract or any(c.abstract or c.opaque_base for c in ci.mro()):
                 return self.spec.abstract_class_attr(self, ci, name)
             return _MISSING
+        if isinstance(node, ast.ClassDef):
+            return self.class_of_node(owner.module, node)
         if isinstance(node, ast.FunctionDef):
             f = O.HFunc(node, owner.module, None, owner.name + "." + name, owner=owner)
             if f.kind == "classmethod":
@@ -1616,32 +1653,45 @@ def frame_eq(h1, h2, n0, except_refs=()):
 
 
 def _framed_havoc(old, new, n0, allowed):
-    """heap that agrees with `old` on every object existing at n0 except `allowed`, and with the havocked
-    `new` elsewhere (defined by lambdas, so reads of framed objects reduce to the old contents)"""
+    """heap that agrees with `old` on every object existing at n0 except `allowed`, and is arbitrary elsewhere.
+    The components are the fresh array constants of `new`; the frame relation to `old` is (a) a quantified axiom
+    (for discharging obligations) and (b) registered in core.FRAME_INFO so that every read instantiates it at the
+    index read (quantifier-free facts for the dispatch queries)."""
     r = z3.Int("r!fh")
     preds = [x for x in allowed if callable(x)]                  # predicate on the object id: members may change
     whole = [x for x in allowed if not isinstance(x, tuple) and not callable(x)]
     partial = [x for x in allowed if isinstance(x, tuple)]      # (ref, [field names]) : only these fields may change
-    keep = z3.And([r <= n0] + [r != V.id(x) for x in whole] + [z3.Not(p_(r)) for p_ in preds])
+
+    def keep(rr):
+        return z3.And([rr <= n0] + [rr != V.id(x) for x in whole] + [z3.Not(p_(rr)) for p_ in preds])
+
+    def existed(rr):
+        return rr <= n0
+
+    def keep_fld(rr, n):
+        return z3.And([keep(rr)] + [rr != V.id(x) for (x, flds) in partial if n in flds])
+
+    def keep_has(rr, n):
+        # attribute *presence* of a field-level framed object is kept (assignments do not remove attributes)
+        return keep(rr)
     names = set(old.fld) | set(new.fld)
     for n in names:
         old.field(n), new.field(n)
     h = new.copy()
-    existed = r <= n0
-    for a in Heap.ARR:
-        k_ = existed if a in ("kind", "cls") else keep     # the kind/class of an object never changes
-        setattr(h, a, z3.Lambda([r], z3.If(k_, z3.Select(getattr(old, a), r), z3.Select(getattr(new, a), r))))
-    def keep_fld(rr, n):
-        return z3.And([rr <= n0] + [rr != V.id(x) for x in whole] + [z3.Not(p_(rr)) for p_ in preds] +
-                      [rr != V.id(x) for (x, flds) in partial if n in flds])
+    h.axioms = list(new.axioms)
+    oldc = old.copy()
 
-    def keep_has(rr, n):
-        # attribute *presence* of a field-level framed object is kept (assignments do not remove attributes)
-        return z3.And([rr <= n0] + [rr != V.id(x) for x in whole] + [z3.Not(p_(rr)) for p_ in preds])
+    def link(arr_new, arr_old, kf):
+        core.FRAME_INFO[arr_new.get_id()] = (arr_new, arr_old, kf)
+        core._KEEPALIVE.append((arr_new, arr_old))
+        h.axioms.append(z3.ForAll([r], z3.Implies(kf(r), core._orig_select(arr_new, r) == z3.Select(arr_old, r)),
+                                  patterns=[core._orig_select(arr_new, r)]))
+    for a in Heap.ARR:
+        link(getattr(new, a), getattr(old, a), existed if a in ("kind", "cls") else keep)   # kind/class never change
     for n in names:
-        h.fld[n] = z3.Lambda([r], z3.If(keep_fld(r, n), z3.Select(old.fld[n], r), z3.Select(new.fld[n], r)))
-        h.has[n] = z3.Lambda([r], z3.If(keep_has(r, n), z3.Select(old.has[n], r), z3.Select(new.has[n], r)))
-    h.framed = (old.copy(), keep_fld, keep_has, new)
+        link(new.fld[n], old.fld[n], lambda rr, n=n: keep_fld(rr, n))
+        link(new.has[n], old.has[n], lambda rr, n=n: keep_has(rr, n))
+    h.framed = (oldc, keep_fld, keep_has, new, link)
     return h
 
 
